@@ -193,7 +193,9 @@ def concretise(hist, payload=default_payload, skin=None, k0=0):
                 nm = g          # the old-side length the environment announced
             start = skin.get("start", 10) + 100 * k
             fr = skin.get("frag", "std")
-            frag = {"std": f" fragZ{k}Z", "none": "", "numbers": f" fragZ{k}Z = -1; x +5,2 @@ y", "space": " "}[fr]
+            frag = {"std": f" fragZ{k}Z", "none": "", "numbers": f" fragZ{k}Z = -1; x +5,2 @@ y", "space": " ",
+                    # longer than a lowered --max-line-length, its token at the very end
+                    "long": " static int a_long_function_name(" + "struct item *p, " * 7 + f"int n) fragZ{k}Z"}[fr]
             if comb:
                 t = f"@@@ -{start},{nm} -{start + 1},{nm} +{start + 3},{np_} @@@{frag}"
             else:
